@@ -33,8 +33,8 @@ CLAIMS = {
   TB + "Hand energy model tied bitwise to the Rust energy functions. Real-number reading of f64 code. Torsion proved off the atan2 branch cut; repulsion exponent a natural number.",
   "Lean 4 proof (Mathlib: HasDerivAt, field_simp/ring identities per slot) over code re-translated each run + bitwise translation validation", "DESIGN.md §5 C02"),
  "C03": ("proof",
-  "Over the reals, for the energy model of each of the seven term kinds and the gradient programs re-translated each run: every energy is invariant under translation of its atoms (unconditionally) and under every proper rotation (RtR = 1, det R = 1; torsion off its branch cut) — via proved invariance of dot products, cross products, distances, bond, dihedral and inversion angles; the translated gradient of every kind sums to zero over the term's atoms along each axis at every regular point (from invariance + gradient = derivative), hence for any force field; the translated gradient of every kind exerts zero net torque about each coordinate axis at every regular point (by differentiating the invariance along the three one-parameter rotation groups; with zero net force, about any point); perception depends on coordinates only through the candidate lists. Explored on the real code, not proved: gradient covariance under rotation, float-level invariance at offsets up to 1e4 A, connectivity and force field rebuilt from moved coordinates.",
-  TB + "Gradient covariance and float-level behaviour are exploration. Real-number reading of f64 code.",
+  "Over the reals, for the energy model of each of the seven term kinds and the gradient programs re-translated each run: every energy is invariant under translation of its atoms (unconditionally) and under every proper rotation (RtR = 1, det R = 1; torsion off its branch cut) — via proved invariance of dot products, cross products, distances, bond, dihedral and inversion angles; the translated gradient of every kind sums to zero over the term's atoms along each axis at every regular point (from invariance + gradient = derivative), hence for any force field; the translated gradient of every kind exerts zero net torque about each coordinate axis at every regular point (by differentiating the invariance along the three one-parameter rotation groups; with zero net force, about any point); the translated gradient of every kind is rotation covariant (g(Rx) = R g(x), atom by atom, at every regular point); perception depends on coordinates only through the candidate lists. Explored on the real code, not proved: float-level invariance at offsets up to 1e4 A, connectivity and force field rebuilt from moved coordinates.",
+  TB + "Float-level behaviour is exploration. Real-number reading of f64 code.",
   "Lean 4 proof (Mathlib: invariance of the energy expressions, uniqueness of derivatives for zero net force) + rigid-motion search on the real code", "DESIGN.md §5 C03"),
  "C04": ("proof",
   "PARTIAL. Proved for all answer histories on the optimiser model: Molecule::optimise changes only the coordinates (frame); a start meeting the convergence criterion is returned unchanged bit for bit; the energies the optimiser remembers are never rising; one descent step with alpha*L <= 2 does not raise an L-smooth energy (reals). NOT proved: the unconditional 'never higher' clause on UFF/RB (floating-point trajectory of a non-convex function; the optimiser is blind to the energy after five evaluations per restart) — explored on the real optimiser over generated molecules inside the stated domain, with before/after snapshots of atoms, connectivity and terms.",
